@@ -243,3 +243,163 @@ func runMutableState(a *Analyzer, r *Results) {
 		r.Undecided = append(r.Undecided, fmt.Sprintf("only %d mutable fields found (%d inventoried)", n, len(mutableRef)))
 	}
 }
+
+// R7.verdict: a function that reports a verdict (an error or a bool result) and recovers from panics reports failure when
+// it recovered: the recover handler assigns the result. A handler that only logs turns "the check blew up" into "the check
+// passed" (nil error / zero value), which for a validator means acceptance.
+func runRecoverVerdict(a *Analyzer, r *Results) {
+	n := 0
+	for _, f := range a.P.Funcs {
+		if f.Parent() != nil || isSpecTypesPkg(funcPkgPath(f)) || f.Signature.Results().Len() == 0 {
+			continue
+		}
+		hasVerdict := false
+		for i := 0; i < f.Signature.Results().Len(); i++ {
+			t := f.Signature.Results().At(i).Type()
+			if isErrorType(t) || isBoolType(t) {
+				hasVerdict = true
+			}
+		}
+		if !hasVerdict {
+			continue
+		}
+		for _, b := range f.Blocks {
+			for _, in := range b.Instrs {
+				d, ok := in.(*ssa.Defer)
+				if !ok {
+					continue
+				}
+				mc, ok := d.Call.Value.(*ssa.MakeClosure)
+				if !ok {
+					continue
+				}
+				h, ok := mc.Fn.(*ssa.Function)
+				if !ok {
+					continue
+				}
+				recovers, assigns := false, false
+				for _, hb := range h.Blocks {
+					for _, hi := range hb.Instrs {
+						if c, isC := hi.(*ssa.Call); isC {
+							if bi, isB := c.Call.Value.(*ssa.Builtin); isB && bi.Name() == "recover" {
+								recovers = true
+							}
+						}
+						if st, isSt := hi.(*ssa.Store); isSt {
+							// a store through a captured variable (the named result)
+							if _, isFV := st.Addr.(*ssa.FreeVar); isFV {
+								if isErrorType(st.Val.Type()) || isBoolType(st.Val.Type()) {
+									assigns = true
+								}
+							}
+						}
+					}
+				}
+				if !recovers {
+					continue
+				}
+				n++
+				r.Check("R7.verdict", props("C08", "C07", "C12", "C02", "C11"), "a function that returns a verdict and recovers from panics reports failure when it recovered (the recover handler assigns the result): a blown-up check never counts as passed", shortName(f), a.P.InstrPos(in), assigns,
+					"the recover handler in "+shortName(f)+" does not assign the function's result: after a panic the function returns its zero value (nil error / false)", "R")
+			}
+		}
+	}
+	if n == 0 {
+		r.Undecided = append(r.Undecided, "no recovering function with a verdict result found (R7.verdict anchor)")
+	}
+}
+
+// Q5.wrapper: the term's own quorum test is quorum.IsQuorum of its committee, nothing else: a wrapper around it returns
+// that call's results on every path (no count-based shortcut in front of the weight test).
+func runQuorumWrapper(a *Analyzer, r *Results) {
+	n := 0
+	for _, f := range a.P.Funcs {
+		if f.Parent() != nil || !strings.HasSuffix(funcPkgPath(f), "services/termincommittee") {
+			continue
+		}
+		if f.Signature.Results().Len() == 0 || !isBoolType(f.Signature.Results().At(0).Type()) {
+			continue
+		}
+		var qcall *ssa.Call
+		for _, b := range f.Blocks {
+			for _, in := range b.Instrs {
+				if c, ok := in.(*ssa.Call); ok {
+					if sc := c.Call.StaticCallee(); sc != nil && (shortName(sc) == "quorum.IsQuorum" || shortName(sc) == "quorum.HasHonest") {
+						qcall = c
+					}
+				}
+			}
+		}
+		if qcall == nil || len(f.Params) > 3 {
+			continue
+		}
+		n++
+		ok := true
+		pos := a.P.Pos(f.Pos())
+		for _, b := range f.Blocks {
+			ret, isRet := b.Instrs[len(b.Instrs)-1].(*ssa.Return)
+			if !isRet {
+				continue
+			}
+			ex, isEx := ret.Results[0].(*ssa.Extract)
+			if !isEx || ex.Tuple != ssa.Value(qcall) || ex.Index != 0 {
+				ok = false
+				pos = a.P.InstrPos(ret)
+			}
+		}
+		r.Check("Q5.wrapper", props("C06", "C01", "C05", "C07", "C09", "C10"), "the term's quorum test is the weight test of services/quorum on every path: a wrapper returns the verdict of quorum.IsQuorum itself (no count-based shortcut)", shortName(f), pos, ok,
+			shortName(f)+" can return a verdict that is not the result of the weight test", "P")
+	}
+	if n == 0 {
+		r.Undecided = append(r.Undecided, "no quorum wrapper found in the term package (Q5.wrapper anchor)")
+	}
+}
+
+// H8.commit: the next round is started from the commit path only after the consumer's commit callback reported success.
+func runCommitThenRound(a *Analyzer, r *Results) {
+	n := 0
+	for _, f := range a.P.Funcs {
+		if funcPkgPath(f) != modPath {
+			continue
+		}
+		var cb *ssa.Call
+		for _, b := range f.Blocks {
+			for _, in := range b.Instrs {
+				if c, ok := in.(*ssa.Call); ok && c.Call.StaticCallee() == nil && !c.Call.IsInvoke() && typeShort(c.Call.Value.Type()) == "interfaces.OnCommitCallback" {
+					cb = c
+				}
+			}
+		}
+		if cb == nil {
+			continue
+		}
+		for _, b := range f.Blocks {
+			for _, in := range b.Instrs {
+				c, ok := in.(*ssa.Call)
+				if !ok || c == cb {
+					continue
+				}
+				sc := c.Call.StaticCallee()
+				if sc == nil || !reachesFn(a, sc, "services/leanhelixterm.NewLeanHelixTerm", map[*ssa.Function]bool{}) {
+					continue
+				}
+				n++
+				good := false
+				for _, db := range f.Blocks {
+					if skip := errFailingSucc(db, cb); skip >= 0 && len(db.Succs) == 2 {
+						succ := db.Succs[1-skip]
+						// ... and the failing branch of that test does not lead to the call as well
+						if (succ == b || succ.Dominates(b)) && !reachableFrom(db.Succs[skip])[b] {
+							good = true
+						}
+					}
+				}
+				r.Check("H8.commit", props("C13", "C14", "C03", "C01"), "after a commit the next round is started only when the consumer's commit callback returned nil: a failed (or interrupted) hand-over never advances the node by itself", shortName(f), a.P.InstrPos(in), good,
+					"the round starter is called on a path on which the commit callback's error was not tested to be nil", "P")
+			}
+		}
+	}
+	if n == 0 {
+		r.Undecided = append(r.Undecided, "no round start after the commit callback found (H8.commit anchor)")
+	}
+}
